@@ -149,6 +149,7 @@ func (ch *Channel) NewStream(ctx context.Context, desc *grpc.StreamDesc, methodN
 	req.Header = h
 
 	cs := newClientStream(ctx, cancel, w, desc.ServerStreams, copts, ch.BaseURL)
+	cs.reqStream = desc.ClientStreams
 	go cs.doHttpCall(ch.Transport, req, r)
 
 	// ensure that context is cancelled, even if caller
@@ -243,6 +244,8 @@ type clientStream struct {
 
 	// respStream is set to indicate whether client expects stream response; unary if false
 	respStream bool
+	// reqStream is set to indicate whether client sends a stream of requests; unary if false
+	reqStream bool
 
 	// hd and hdErr are populated when ready is done
 	ready sync.WaitGroup
@@ -335,6 +338,18 @@ func (cs *clientStream) readErrorIfDone() (bool, error) {
 }
 
 func (cs *clientStream) SendMsg(m interface{}) error {
+	err := cs.sendMsg(m)
+	if err == io.EOF && !cs.reqStream {
+		// Like grpc-go: generated code for a method with a single request
+		// returns the error of this SendMsg as the result of the whole call
+		// and hands out no stream. That the server has already finished is
+		// not a failure of the send; its status is what RecvMsg reports.
+		return nil
+	}
+	return err
+}
+
+func (cs *clientStream) sendMsg(m interface{}) error {
 	// GRPC streams return EOF error for attempts to send on closed stream
 	if done, _ := cs.readErrorIfDone(); done {
 		return io.EOF
